@@ -468,6 +468,53 @@ Proof.
   rewrite Hl in Hk. lia.
 Qed.
 
+(* ---------- registry: an operation FAILS instead of being performed ---------- *)
+Definition plain (o : op) : bool :=
+  match o with RenameElseUnlink _ _ _ | RenameRetry _ _ => false | _ => true end.
+
+Lemma step_fault_plain : forall s o q, plain o = true -> look (step_fault s o) q = look s q.
+Proof. intros s o q H. unfold step_fault. destruct (failed s); [reflexivity|]. destruct o; try discriminate; reflexivity. Qed.
+
+Lemma In_firstn : forall (A : Type) n (l : list A) x, In x (firstn n l) -> In x l.
+Proof.
+  induction n as [|n IH]; intros l x H; [contradiction|]. destruct l as [|y l]; [contradiction|].
+  cbn [firstn] in H. destruct H as [->|H]; [left; reflexivity|right; apply IH; exact H].
+Qed.
+
+(* the registry is rewritten with plain system calls only: in particular the move is a bare rename(tmp, final), with no
+   "remove the destination and try again" fallback (which would delete the old registry when the rename fails) *)
+Lemma registry_ops_plain : forall basedir chunks, forallb plain (registry_ops basedir chunks) = true.
+Proof.
+  intros. apply forallb_forall. intros o Ho. rewrite registry_ops_core in Ho. apply In_firstn in Ho.
+  unfold core_ops in Ho. destruct Ho as [<-|Ho]; [reflexivity|]. apply in_app_or in Ho. destruct Ho as [Ho|Ho].
+  - apply in_map_iff in Ho. destruct Ho as (b & <- & _). reflexivity.
+  - cbn in Ho. destruct Ho as [<-|[<-|[<-|[]]]]; reflexivity.
+Qed.
+
+Theorem registry_fault_atomic : forall s0 basedir chunks k,
+  let final := registry_final basedir in
+  let tmp := final ++ registry_tmp_ext in
+  wf_st s0 -> unshared s0 tmp -> clean s0 -> no_link_at s0 tmp -> no_dir_at s0 tmp -> no_dir_at s0 final ->
+  let s := run_fault k s0 (registry_ops basedir chunks) in
+  look s final = look s0 final \/ look s final = VFile (concat chunks).
+Proof.
+  intros s0 basedir chunks k final tmp Hwf Hun Hcl Hnl Hnd Hndf. cbv zeta. unfold run_fault.
+  destruct (nth_error (registry_ops basedir chunks) k) as [o|] eqn:E.
+  - pose proof (registry_ops_plain basedir chunks) as Hp. rewrite forallb_forall in Hp.
+    rewrite step_fault_plain by (apply Hp; eapply nth_error_In; eauto).
+    apply (registry_atomic s0 basedir chunks k Hwf Hun Hcl Hnl Hnd Hndf).
+  - pose proof (registry_atomic s0 basedir chunks (List.length (registry_ops basedir chunks)) Hwf Hun Hcl Hnl Hnd Hndf) as H.
+    cbv zeta in H. rewrite firstn_all in H. apply H.
+Qed.
+
+(* why the fallback must not be there: with `try rename except: remove(dest); rename` a failing rename deletes the old
+   registry and leaves nothing in its place (seeded change C19-r4s1) *)
+Theorem rename_retry_loses_registry :
+  let s0 := mk_st [([47; 114]%N, F 0%nat); ([47; 116]%N, F 1%nat)] [[111]%N; [110]%N] in      (* "/r" = old, "/t" = new *)
+  look (step_fault s0 (RenameRetry [47; 116]%N [47; 114]%N)) [47; 114]%N = VNone /\
+  look (step_fault s0 (Rename [47; 116]%N [47; 114]%N)) [47; 114]%N = VFile [111]%N.
+Proof. vm_compute. split; reflexivity. Qed.
+
 (* ---------- gatherer and publisher paths ---------- *)
 Lemma gatherer_ext_facts : has_sep gatherer_ext = false /\ (2 <= List.length gatherer_ext)%nat.
 Proof. split; [reflexivity|cbn; lia]. Qed.
